@@ -45,6 +45,7 @@ class Deployment:
   def __init__(self, kind, cfg, net, policy_factory=None, backend='ram'):
     self.kind = kind
     self.cfg = cfg
+    O.set_ids(cfg)
     self.net = net
     self.backend = backend
     self.calls = {}
